@@ -366,6 +366,172 @@ def r148_inputs_used(ctx, res):
     ctx.require(res, "R14.8", n, 20, "builder inputs")
 
 
+def _flatten_product(e, num, den, inv=False):
+    import ast
+    if isinstance(e, ast.BinOp) and isinstance(e.op, ast.Mult):
+        _flatten_product(e.left, num, den, inv)
+        _flatten_product(e.right, num, den, inv)
+    elif isinstance(e, ast.BinOp) and isinstance(e.op, ast.Div):
+        _flatten_product(e.left, num, den, inv)
+        _flatten_product(e.right, num, den, not inv)
+    else:
+        (den if inv else num).append(e)
+
+
+def _quarter_turn_angle(ang, var, lo, stop_txt):
+    """is `ang` = pi * q * (var + c) / N with q <= 1/2, so that for var in range(lo, N + k), k - 1 + c <= 0, lo + c >= 0 the
+    angle increases with var and stays inside [0, pi/2]?  -> (ok, explanation)"""
+    import ast
+    from fractions import Fraction
+    from ..astutil import const_num, txt
+    num, den = [], []
+    _flatten_product(ang, num, den)
+    q = Fraction(1)
+    pis = 0
+    lin = None
+    names_den = []
+    for side, fs in (("n", num), ("d", den)):
+        for f in fs:
+            if txt(f) in ("math.pi", "pi"):
+                if side == "d":
+                    return False, "pi in the denominator"
+                pis += 1
+                continue
+            k = const_num(f)
+            if k is not None and k != 0 and float(k) == int(k):
+                q = q * int(k) if side == "n" else q / int(k)
+                continue
+            if side == "n" and any(isinstance(x, ast.Name) and x.id == var for x in ast.walk(f)):
+                if lin is not None:
+                    return False, "two factors depend on the loop variable"
+                lin = f
+                continue
+            if side == "d" and isinstance(f, ast.Name):
+                names_den.append(f.id)
+                continue
+            return False, "factor `%s` is not recognised" % txt(f)
+    if pis != 1 or lin is None or len(names_den) != 1:
+        return False, "not of the form pi * q * (%s + c) / N" % var
+    c = 0
+    if isinstance(lin, ast.Name):
+        c = 0
+    elif isinstance(lin, ast.BinOp) and isinstance(lin.op, (ast.Add, ast.Sub)) and isinstance(lin.left, ast.Name) and lin.left.id == var \
+            and const_num(lin.right) is not None:
+        c = const_num(lin.right) * (1 if isinstance(lin.op, ast.Add) else -1)
+    elif isinstance(lin, ast.BinOp) and isinstance(lin.op, ast.Add) and isinstance(lin.right, ast.Name) and lin.right.id == var \
+            and const_num(lin.left) is not None:
+        c = const_num(lin.left)
+    else:
+        return False, "`%s` is not %s plus a constant" % (txt(lin), var)
+    N = names_den[0]
+    # stop = N + k
+    st = stop_txt.replace(" ", "")
+    if st == N:
+        k = 0
+    elif st.startswith(N + "-") and st[len(N) + 1:].isdigit():
+        k = -int(st[len(N) + 1:])
+    elif st.startswith(N + "+") and st[len(N) + 1:].isdigit():
+        k = int(st[len(N) + 1:])
+    else:
+        return False, "the loop bound `%s` is not %s plus a constant" % (stop_txt, N)
+    if q <= 0 or q > Fraction(1, 2) or k - 1 + c > 0 or lo + c < 0:
+        return False, "the angle is not confined to [0, pi/2] (q = %s, last index %s%+d, offset %+d)" % (q, N, k - 1, c)
+    return True, "pi * %s * (%s%+d) / %s, increasing from %s to at most pi/2" % (q, var, c, N, "0" if lo + c == 0 else "a positive angle")
+
+
+def r1410_latitude_order(ctx, res):
+    """R14.10: the latitude rings of Sphere are stacked in the order in which the bands connect them.  With the polar angle
+    growing with the loop index inside (0, pi/2), the axial offset `R sin` grows and the ring radius `R cos` shrinks: the first
+    ring built is the one next to the equator.  The bands join the equator ring to element [0] of the ring list; exchanging
+    sin and cos reverses the stacking while the bands stay, and the surface folds over itself."""
+    import ast
+    from ..astutil import const_num, expand_locals, txt
+    from ..model import walk_local
+
+    fi = ctx.repo.fn("ConvexPolyhedron.Sphere")
+    eng = ctx.types
+    loops = []
+    for lp in walk_local(fi.node):
+        if not (isinstance(lp, ast.For) and isinstance(lp.target, ast.Name) and isinstance(lp.iter, ast.Call)
+                and isinstance(lp.iter.func, ast.Name) and lp.iter.func.id == "range" and 1 <= len(lp.iter.args) <= 2):
+            continue
+        trig = {}
+        for st in ast.walk(lp):
+            if isinstance(st, ast.Assign) and len(st.targets) == 1 and isinstance(st.targets[0], ast.Name):
+                v = st.value
+                calls = [c for c in ast.walk(v) if isinstance(c, ast.Call) and txt(c.func) in ("math.sin", "math.cos", "sin", "cos") and len(c.args) == 1]
+                if len(calls) == 1 and isinstance(v, ast.BinOp) and isinstance(v.op, ast.Mult) and (v.left is calls[0] or v.right is calls[0]):
+                    trig[st.targets[0].id] = (txt(calls[0].func).split(".")[-1], v.right if v.left is calls[0] else v.left, calls[0].args[0], st)
+        if trig:
+            loops.append((lp, trig))
+    if not loops:
+        res.note("%s Sphere has no loop that places rings by `R * sin / cos` of an index angle; latitude order not evaluated" % fi.where())
+        return
+    n = 0
+    for lp, trig in loops:
+        var = lp.target.id
+        lo = 0 if len(lp.iter.args) == 1 else const_num(lp.iter.args[0])
+        if lo is None:
+            raise AnalysisError("%s: lower bound of the ring loop is not a constant" % fi.where(lp))
+        kinds = {k: t[0] for k, t in trig.items()}
+        if sorted(kinds.values()) != ["cos", "sin"]:
+            raise AnalysisError("%s: the ring loop does not define one sine and one cosine quantity (%s)" % (fi.where(lp), kinds))
+        for name, (fn, coef, ang, st) in trig.items():
+            ok, why = _quarter_turn_angle(expand_locals(fi.node, ang, fi.params), var, int(lo), txt(lp.iter.args[-1]))
+            if not ok:
+                raise AnalysisError("%s: angle `%s` of the ring loop: %s" % (fi.where(st), txt(ang), why))
+            if not (isinstance(coef, ast.Name) and coef.id in fi.params):
+                raise AnalysisError("%s: `%s` is not <parameter> * %s(angle)" % (fi.where(st), txt(st)[:50], fn))
+        # roles: the axial offset is the quantity that multiplies a vector or appears negated; the other is the ring radius
+        offset = set()
+        for x in ast.walk(lp):
+            if isinstance(x, ast.UnaryOp) and isinstance(x.op, ast.USub) and isinstance(x.operand, ast.Name) and x.operand.id in trig:
+                offset.add(x.operand.id)
+            if isinstance(x, ast.BinOp) and isinstance(x.op, ast.Mult):
+                for a_, b_ in ((x.left, x.right), (x.right, x.left)):
+                    if isinstance(a_, ast.Name) and a_.id in trig and {str(t) for t in eng.types_at(fi, b_) if not isinstance(t, tuple)} == {"Vector"}:
+                        offset.add(a_.id)
+        if len(offset) != 1:
+            raise AnalysisError("%s: which of %s is the axial offset of the rings cannot be told" % (fi.where(lp), sorted(trig)))
+        off = next(iter(offset))
+        rad = next(k for k in trig if k != off)
+        # orientation: the ring lists filled in this loop, and the ring that element [0] is joined to
+        lists = {c.func.value.id for c in ast.walk(lp) if isinstance(c, ast.Call) and isinstance(c.func, ast.Attribute)
+                 and c.func.attr == "append" and isinstance(c.func.value, ast.Name)}
+        inside = {t_.id for st_ in ast.walk(lp) if isinstance(st_, ast.Assign) for t_ in st_.targets if isinstance(t_, ast.Name)}
+        outer = {t_.id for st_ in walk_local(fi.node) if isinstance(st_, ast.Assign) for t_ in st_.targets if isinstance(t_, ast.Name)} - inside - lists
+        equators = set()
+        joined = False
+        for c in walk_local(fi.node):
+            if isinstance(c, ast.Call):
+                subs = [x for a_ in c.args for x in ast.walk(a_) if isinstance(x, ast.Subscript)]
+                firsts = [x for x in subs if isinstance(x.value, ast.Subscript) and isinstance(x.value.value, ast.Name) and x.value.value.id in lists
+                          and const_num(x.value.slice) == 0]
+                firsts += [x for x in subs if isinstance(x.value, ast.Name) and x.value.id in lists and const_num(x.slice) == 0]
+                eqs = {x.value.id for x in subs if isinstance(x.value, ast.Name) and x.value.id in outer}
+                eqs |= {a_.id for a_ in c.args if isinstance(a_, ast.Name) and a_.id in outer
+                        and any(isinstance(t, tuple) and t[0] in ("list", "tuple") for t in eng.types_at(fi, a_))}
+                if firsts and eqs:
+                    joined = True
+                    equators |= eqs
+        if not joined:
+            raise AnalysisError("%s: no face joins the equator ring (%s) to element [0] of the ring lists (%s); the stacking order "
+                                "cannot be compared with the connection order" % (fi.where(lp), sorted(equators), sorted(lists)))
+        n += 1
+        ok = kinds[off] == "sin" and kinds[rad] == "cos"
+        res.ob("R14.10", fi.where(lp), "Sphere: rings stacked from the equator to the pole", ok,
+               "axial offset `%s` = R sin(angle) grows, ring radius `%s` = R cos(angle) shrinks with the index; element [0] is joined to the equator"
+               % (off, rad) if ok else "axial offset `%s` = R %s(angle), ring radius `%s` = R %s(angle)" % (off, kinds[off], rad, kinds[rad]))
+        if not ok:
+            res.violation("R14.10", fi, trig[off][3],
+                          "Sphere stacks its latitude rings in the reverse of the order in which the bands connect them: with the angle "
+                          "growing with the index inside (0, pi/2), the axial offset `%s` = R %s(angle) shrinks and the ring radius `%s` = "
+                          "R %s(angle) grows, so element [0] of the ring list -- which the faces join to the equator ring -- is the ring "
+                          "next to the pole. The vertex set is the same, the surface folds over itself (wrong area and volume, not convex)"
+                          % (off, kinds[off], rad, kinds[rad]), construct="Sphere: latitude rings in reverse order")
+    ctx.require(res, "R14.10", n, 1, "ring loops of Sphere")
+
+
 def run(ctx, res):
     res.explanation = (
         "Static decision of four structural clauses of C14: the seven builders (Parallelogram, Parallelepiped, Circle, "
@@ -405,6 +571,7 @@ def run(ctx, res):
     r146_rings_agree(ctx, res)
     r147_orientation_free_guards(ctx, res)
     r148_inputs_used(ctx, res)
+    r1410_latitude_order(ctx, res)
     # R14.3
     check_guard(ctx, res, GuardOb("get_circle_point_list", "n >= 3", "a circle with n < 3 must be rejected",
                                   inputs_any={"n"}, min_accept=3, subject="n"), rule="R14.3")
@@ -413,4 +580,8 @@ def run(ctx, res):
     for short in ("ConvexPolyhedron.Sphere", "ConvexPolyhedron.Cylinder", "ConvexPolyhedron.Cone"):
         c += check_cycles(ctx, res, ctx.repo.fn(short), "R14.4")
     ctx.require(res, "R14.4", c, 3, "cycle loops in the builders")
+    # R14.9 positions and directions are not confused in the builders (affine.py)
+    from ..affine import affine_scope, report_affine
+    k9 = report_affine(ctx, res, "R14.9", affine_scope(ctx, [ctx.repo.fn(b_) for b_ in BUILDERS], ("ConvexPolygon", "ConvexPolyhedron")), "the shape built")
+    ctx.require(res, "R14.9", k9, 7, "function contexts examined for position / direction mismatches")
     res.undecided_ob("vertex/edge/face counts, vertices on the specified surface at equal steps, closed-form area and volume (numeric)")
